@@ -386,7 +386,7 @@ class World(WsWorld):
         import fnmatch
         from urllib.parse import urlsplit
         u = urlsplit(origin)
-        port = u.port or {"http": 80, "https": 443}.get(u.scheme.lower())
+        port = u.port if u.port is not None else {"http": 80, "https": 443}.get(u.scheme.lower())  # (an explicit port 0 is a port)
         full = "%s://%s:%s" % (u.scheme.lower(), u.hostname, port)
         return any(fnmatch.fnmatchcase(full, pat) for pat in allowed)
 
@@ -475,7 +475,8 @@ class World(WsWorld):
             # (the last four END with an allowed origin, as the others begin with or contain one: the whole origin counts)
             bad = ch.pick(("http://evil.com", "http://good.com.evil.com", "http://evilgood.com", "https://good.com",
                            "http://good.com:81", "null", "http://good.com@evil.com", "ftp://good.com",
-                           "evil+http://good.com:80", "xhttp://good.com:80", "xhttp://good.com:8080", "evil.http://good.com:8080"), "badorigin")
+                           "evil+http://good.com:80", "xhttp://good.com:80", "xhttp://good.com:8080", "evil.http://good.com:8080",
+                           "http://good.com:0"), "badorigin")
             hdr = [(k, v) for k, v in hdr if k != origin_key] + [(origin_key, bad)]
             valid = valid_base(self, limit_hit) and self.origin_allowed(bad)
         elif mut == "origin-nohost":
